@@ -10,7 +10,7 @@ variable {α : Type} [Add α] [Sub α] [Mul α] [Div α] [Neg α] [LT α] [LE α
   [DecidableLT α] [DecidableLE α] [OfNat α 0] [OfNat α 1] [OfNat α 2] [OfNat α 4] [Fns α]
 
 namespace Proc
-open AGP
+open AGP AGP.Ctl
 
 /-- The stop criterion after `j` passes of the canonical sequence from `ps`, written with the data of
 that sequence only: the running Python-`min` of the selected lengths is below `eps`, or the budget is used up. -/
